@@ -135,6 +135,9 @@ fn case_builder1<T: Elem>(case: u64, args: &Args, ev: &mut Ev) {
             ev.count("declared_minimum", format!("{min}"));
             ev.count("axis_variant", &aname);
             ev.count("build_outcome", built.tag());
+            if n == min {
+                ev.sample(|| J::obj().set("row", what.as_str()).set("build_outcome", built.tag()).set("user_build_invoked", !h.lock().builds.is_empty()));
+            }
             let replay = spec1_json(&spec).set("row", what.as_str());
             let builds = h.lock().builds.clone();
             if !check_build_rec::<T>(ev, case, &what, &builds, min, false, &replay) {
